@@ -383,10 +383,20 @@ def lab_of(labels, data, sender):
 
 
 def _call_verbs(world, c) -> List[str]:
-    hist = world.net.history
-    end = c.get("net_end", len(hist))
-    vs = sorted({r.verb for r in hist[c["net_mark"]:end] if r.who == c["task"] and r.src[0] != SPA_IP})
-    return vs
+    """Request verbs of a request-engine call, from the requests it built (a request built after the connection was torn
+    down is never put on the wire, but its waiter still polls the queue)."""
+    vs = set()
+    for (_t, _timeout, req) in c.get("built", []):
+        try:
+            data = req.send_bytes
+        except Exception:
+            continue
+        i = data.find(b"<DATAS>")
+        if i >= 0:
+            vs.add(data[i + 7:i + 12].decode("latin1"))
+    if c["kind"] == "struct.get":
+        vs.add("STATU")
+    return sorted(vs)
 
 
 def _verb(data: bytes) -> str:
@@ -430,7 +440,7 @@ ASSUMPTIONS = [
     "packets whose framing is ambiguous (tag text inside identifiers/payload) are only held to exactly-once and residence",
 ]
 PROBES = ["discarded_unhandled", "misaddressed_dropped", "unknown_verb_discarded"]
-N_QUICK = 480
+N_QUICK = 2400
 
 
 def jobs(tier: str, base_seed: int):
